@@ -313,8 +313,12 @@ def run_codecs(ev, state, coords, job):
   try:
     import xarray
     from dinosaur import layer_coordinates, sigma_coordinates, vertical_interpolation
-    for _ in range(2):
-      gcfg = gen.draw_grid_cfg(rng, 2, 24, model=False)
+    gcfg = None
+    for it in range(3):
+      if it != 1 or gcfg is None:
+        gcfg = gen.draw_grid_cfg(rng, 2, 24, model=False)
+      else:
+        gcfg = dict(gcfg)   # same truncation and nodes as before, other radius / offset
       gcfg['offset'] = rng.choice([0.0, 0.1, float(np.pi / 7), rng.uniform(0, 1)])
       gcfg['radius'] = rng.choice([None, 1.0, 2.5, rng.uniform(0.5, 3)])
       grid = gen.build_grid(gcfg, coords.horizontal.spherical_harmonics_impl)
@@ -379,7 +383,20 @@ def run_updown(ev, state, coords, job):
   try:
     up = coordinate_systems.get_spectral_upsample_fn(coords, fine)
     down = coordinate_systems.get_spectral_downsample_fn(fine, coords)
+    rs = np.random.RandomState(ev['ds'] ^ 5)
+    # heterogeneous leaves: the state plus a 2-D modal field (e.g. orography) and a
+    # stack of frames with a leading time axis
+    first3d = [np.asarray(l) for l in jax.tree_util.tree_leaves(state) if np.ndim(l) == 3][0]
+    state = {'state': state,
+             'orography': gen.random_modal(rs, g, (), amp=1.0, clip_top=False),
+             'frames': np.stack([first3d, first3d * 0.5])}
     su = up(state)
+    want_shape = tuple(fine_grid.modal_shape)
+    for leaf in jax.tree_util.tree_leaves(su):
+      if np.ndim(leaf) >= 2 and tuple(np.shape(leaf)[-2:]) != want_shape:
+        bad(f'up-sampled leaf has modal shape {np.shape(leaf)[-2:]}, fine grid has '
+            f'{want_shape}')
+        break
     sd = down(su)
     ok, msg = tree_bits_equal(jax.tree_util.tree_map(np.asarray, state),
                               jax.tree_util.tree_map(np.asarray, sd))
